@@ -3,7 +3,7 @@
 (* harness's independent firmware model measures facts about each produced update (which buffer the    *)
 (* signature binds, which key made it, its timestamp) and applies SecureBootFlow!Accepts.              *)
 EXTENDS Integers, Sequences, FiniteSets, TLC, SequencesExt, Json
-VARIABLES store, lastT, made, l
+VARIABLES store, lastT, made, sb, l
 Trace == ndJsonDeserialize("trace.ndjson")
 ASSUME TLCSet(1, 0) /\ TLCSet(2, {})
 Ev == Trace[l]
@@ -15,32 +15,45 @@ Has(s, e) == \E i \in 1..Len(s) : s[i] = e
 Pos(s, e) == CHOOSE i \in 1..Len(s) : s[i] = e
 Apply(op, e, s) == IF op = "append" THEN (IF Has(s, e) THEN s ELSE Append(s, e)) ELSE (IF Has(s, e) THEN Without(s, Pos(s, e)) ELSE s)
 
-Reset == IsEvent("reset") /\ store' = [v \in Vars |-> <<>>] /\ lastT' = [v \in Vars |-> 0] /\ made' = <<>>
-Tick == IsEvent("tick") /\ UNCHANGED <<store, lastT, made>>
+(* platform modes: setup mode = no platform key; stories that involve them say so in their reset event (Ev.modes) *)
+SetupMode == store["PK"] = <<>>
+Reset == IsEvent("reset") /\ store' = [v \in Vars |-> <<>>] /\ lastT' = [v \in Vars |-> 0] /\ made' = <<>> /\ sb' = [on |-> FALSE, modes |-> Ev.modes]
+Tick == IsEvent("tick") /\ UNCHANGED <<store, lastT, made, sb>>
+AuthorisedNow(v, k) == IF sb.modes /\ SetupMode THEN (v = "PK" => k = "pkkey") ELSE Authorised(v, k)
 (* read-modify-sign: what is signed is the edit applied to what the variable held (kind "payload": C07/C09/C12 composed); *)
 (* the timestamp is the current time (kind "time": C06)                                                                  *)
 Produce == /\ IsEvent("produce") /\ Ev.res = "ok"
            /\ (Ev.check_payload => Ev.prev = store[Ev.v] /\ Ev.payload = Apply(Ev.edit, Ev.e, store[Ev.v]))
            /\ (Ev.check_time => Ev.t >= Ev.clock[1] /\ Ev.t <= Ev.clock[2])
            /\ made' = Append(made, [for |-> Ev.v, payload |-> Ev.payload, t |-> Ev.t, signer |-> Ev.k])
-           /\ UNCHANGED <<store, lastT>>
+           /\ UNCHANGED <<store, lastT, sb>>
 (* firmware: the measured facts must be those of the update as produced (binding, kind "bind": C06), and the decision follows *)
 Submit == /\ IsEvent("submit") /\ Ev.i \in 1..Len(made)
           /\ LET u == made[Ev.i] IN
              /\ (Ev.check_bind => (Ev.binds <=> (u.for = Ev.target)) /\ Ev.signer = u.signer /\ Ev.t = u.t /\ Ev.payload = u.payload)
-             /\ LET acc == Ev.binds /\ Authorised(Ev.target, Ev.signer) /\ Ev.t > lastT[Ev.target] IN
+             /\ LET acc == Ev.binds /\ AuthorisedNow(Ev.target, Ev.signer) /\ Ev.t > lastT[Ev.target] IN
                 /\ Ev.accepted = acc
                 /\ store' = (IF acc THEN [store EXCEPT ![Ev.target] = Ev.payload] ELSE store)
                 /\ lastT' = (IF acc THEN [lastT EXCEPT ![Ev.target] = Ev.t] ELSE lastT)
+                /\ sb' = (IF acc /\ Ev.target = "PK" /\ Ev.payload = <<>> THEN [sb EXCEPT !.on = FALSE] ELSE sb)
           /\ UNCHANGED made
 (* read back through the typed accessor (kind "read": C12/C07 composed) *)
 Read == /\ IsEvent("read")
         /\ (Ev.check_read => IF Ev.res = "ok" THEN Ev.db = store[Ev.v] ELSE lastT[Ev.v] = 0)
-        /\ UNCHANGED <<store, lastT, made>>
-Conform == Reset \/ Tick \/ Produce \/ Submit \/ Read
+        /\ UNCHANGED <<store, lastT, made, sb>>
+ToggleSB == /\ IsEvent("togglesb") /\ Ev.accepted = ~(Ev.on /\ SetupMode)
+            /\ sb' = (IF Ev.accepted THEN [sb EXCEPT !.on = Ev.on] ELSE sb) /\ UNCHANGED <<store, lastT, made>>
+(* the typed accessors report the platform mode: object API (value or error) and legacy API (a plain boolean) *)
+Bool(b) == IF b THEN "true" ELSE "false"
+ReadModes == /\ IsEvent("modes")
+             /\ (Ev.check_modes => /\ Ev.setup_obj = Bool(SetupMode) /\ Ev.setup_legacy = SetupMode
+                                    /\ Ev.sb_obj = Bool(sb.on) /\ Ev.sb_legacy = sb.on
+                                    /\ Ev.pk_entries = Len(store["PK"]))
+             /\ UNCHANGED <<store, lastT, made, sb>>
+Conform == Reset \/ Tick \/ Produce \/ Submit \/ Read \/ ToggleSB \/ ReadModes
 Deviate == /\ l <= Len(Trace) /\ ~ENABLED Conform /\ TLCSet(2, TLCGet(2) \cup {l}) /\ l' = Ev.nx
-           /\ store' = [v \in Vars |-> <<>>] /\ lastT' = [v \in Vars |-> 0] /\ made' = <<>>
-Init == store = [v \in Vars |-> <<>>] /\ lastT = [v \in Vars |-> 0] /\ made = <<>> /\ l = 1
+           /\ store' = [v \in Vars |-> <<>>] /\ lastT' = [v \in Vars |-> 0] /\ made' = <<>> /\ sb' = [on |-> FALSE, modes |-> FALSE]
+Init == store = [v \in Vars |-> <<>>] /\ lastT = [v \in Vars |-> 0] /\ made = <<>> /\ sb = [on |-> FALSE, modes |-> FALSE] /\ l = 1
 Next == Conform \/ Deviate
 HighWater == TLCSet(1, IF l > TLCGet(1) THEN l ELSE TLCGet(1))
 Accepted == /\ PrintT(<<"REJECTED", TLCGet(2)>>)
